@@ -378,6 +378,21 @@ def main(argv=None) -> int:
         env = dict(os.environ, PYTHONHASHSEED="0", PYTHONWARNINGS="ignore")
         os.execve(sys.executable, [sys.executable, "-m", "pbt.run", *(argv or sys.argv[1:])], env)
 
+    # the library derives its data / config / log directories from XDG_* at import time: give every run
+    # its own empty ones (removed at exit), so no check ever touches the user's real directories
+    import atexit
+    import shutil
+    import tempfile
+
+    if "VERIF_XDG_ROOT" not in os.environ:
+        root = tempfile.mkdtemp(prefix="verif_xdg_")
+        os.environ["VERIF_XDG_ROOT"] = root
+        atexit.register(shutil.rmtree, root, True)
+    root = os.environ["VERIF_XDG_ROOT"]
+    for var, sub in (("XDG_CONFIG_HOME", "config"), ("XDG_DATA_HOME", "data"), ("XDG_CACHE_HOME", "cache")):
+        os.environ[var] = os.path.join(root, sub)
+    os.environ["HOME"] = os.path.join(root, "home")
+
     try:
         seed = int(os.environ.get("VERIF_SEED", "1") or "1")
     except ValueError:
